@@ -140,6 +140,9 @@ structure St where
   bad : Option String := none
   tokOnly : Bool := false
   caseIdx : Nat := 0
+  retrieved : List (Str × Str) := []          -- `tr retrieved`: provider calls the implementation made
+  wantExact : List (Str × String) := []       -- top-level key, encoded value the result must hold exactly
+  leafAll : Bool := false
   wants : List (Str × Bool × Str × String) := []   -- key, nested?, original text, yaml kind
   implTyped : List (Str × List String) := []
   wantc : List (Str × String × String) := []   -- key, expected container (encoded), yaml kind
@@ -284,7 +287,7 @@ partial def uniqueKeys : Val → Bool
 /-- `C12_resolve_lookup` evaluated on the implementation's result (every 5th case): under every leaf path of the merged
 sources the implementation holds `resolveValue` of the merged value -/
 def checkLeafPaths (s : St) (res : KVs) : Option String :=
-  if s.caseIdx % 5 != 0 then none else
+  if s.caseIdx % 5 != 0 && !s.leafAll then none else
   match s.srcs.reverse.mapM asConf with
   | none => none
   | some ms =>
@@ -297,6 +300,69 @@ def checkLeafPaths (s : St) (res : KVs) : Option String :=
         let got := match lookupPath p res with | some x => showVal x | none => "none"
         if got == showVal v' then none else
           some s!"sig=C12/resolve/leaf-path-value-mismatch path={" ".intercalate (p.map hexStr)} want={showVal v'} got={got}")
+
+/-- every `$` starts a plain `${body}` (body without `$ { }`): no reference can be built by concatenation or nesting -/
+def simpleRefs : Str → Bool
+  | [] => true
+  | c :: r =>
+    if c = '$' then
+      match r with
+      | '{' :: r2 =>
+        let body := r2.takeWhile (fun x => x != '}')
+        body.length < r2.length && !body.any (fun x => x == '$' || x == '{') && simpleRefs (r2.drop (body.length + 1))
+      | _ => false
+    else simpleRefs r
+  termination_by s => s.length
+  decreasing_by all_goals simp_wf <;> (try simp [List.length_drop]) <;> omega
+
+/-- the provider keys named by the plain references of a string -/
+def refsOf (env : Env) : Str → List (Str × Str)
+  | [] => []
+  | c :: r =>
+    (match refBodyAt (c :: r) with
+     | some body =>
+       if hasColon body then (match splitColon body with | some k => [k] | none => [])
+       else (match env.defaultScheme with | some d => [(d, body)] | none => [])
+     | none => []) ++ refsOf env r
+
+/-- merge FIRST, then expand — provider calls: when every string of the case has only plain references, a provider key the
+implementation retrieved must be named by a reference that SURVIVES the merge (a leaf string of the merged sources) or by a
+provider value; a reference that a later source replaced must not be retrieved at all -/
+def checkRetrieved (s : St) : Option String :=
+  if s.retrieved.isEmpty then none else
+  match s.srcs.reverse.mapM asConf with
+  | none => none
+  | some ms =>
+    let env := s.env
+    let provStrs := s.provs.flatMap (fun e => valStrings e.2.raw ++ (match e.2.strRep with | some r => [r] | none => []))
+    let srcStrs := s.srcs.flatMap valStrings
+    if !(provStrs ++ srcStrs).all simpleRefs then none else
+    let alive := ((flatten [] (mergeSources ms)).flatMap (fun l => valStrings l.2) ++ provStrs).flatMap (refsOf env)
+    match s.retrieved.find? (fun u => !alive.contains u) with
+    | some (sc, nm) => some s!"sig=C12/merge/overridden-reference-still-looked-up retrieved={hexStr sc}:{hexStr nm}"
+    | none => none
+
+/-- `C12_resolve_error_from_merged_leaf` on the implementation: it failed although no source is a non-map and every value
+that survives the merge resolves -/
+def checkMergeError (s : St) : Option String :=
+  if !s.implErr || (s.caseIdx % 5 != 0 && !s.leafAll) then none else
+  match s.srcs.reverse.mapM asConf with
+  | none => none
+  | some ms =>
+    let env := s.env
+    if (flatten [] (mergeSources ms)).all (fun l => match resolveValue env l.2 with | .ok _ => true | .error _ => false) then
+      some "sig=C12/merge/overridden-reference-still-looked-up resolve-failed-though-every-merged-value-resolves"
+    else none
+
+/-- the result holds exactly the later source's value under an overridden key -/
+def checkExact (s : St) : Option String :=
+  match s.implStrmap with
+  | some (.map res) =>
+    s.wantExact.findSome? (fun (k, enc) =>
+      let got := match res.lookup k with | some v => showVal v | none => "none"
+      if got == enc then none else
+        some s!"sig=C12/merge/overridden-reference-leaks-into-result key={hexStr k} want={enc} got={got}")
+  | _ => none
 
 def handler : Handler St where
   init := {}
@@ -324,16 +390,14 @@ def handler : Handler St where
       match (if key = "-" then some [] else unhexStr key.toList), parseToks ts with
       | some k, some ts => ({ s with toks := s.toks ++ [(k, ts)] }, [])
       | _, _ => (s, ["obs bad-op"])
+    | ["wantexact", key, enc] =>
+      match (if key = "-" then some [] else unhexStr key.toList) with
+      | some k => ({ s with wantExact := s.wantExact ++ [(k, enc)] }, [])
+      | none => (s, ["obs bad-op"])
     | ["wantc", key, enc, kind] =>
       match (if key = "-" then some [] else unhexStr key.toList) with
       | some k => ({ s with wantc := s.wantc ++ [(k, enc, kind)] }, [])
       | none => (s, ["obs bad-op"])
-    | [w, key, txt, kind] =>
-      if w == "want" || w == "wantn" then
-        match (if key = "-" then some [] else unhexStr key.toList), (if txt = "-" then some [] else unhexStr txt.toList) with
-        | some k, some t => ({ s with wants := s.wants ++ [(k, w == "wantn", t, kind)] }, [])
-        | _, _ => (s, ["obs bad-op"])
-      else (s, ["obs bad-op"])
     | "resolvex" :: rest =>
       -- external-package harness (real envprovider): only what the public API shows
       let hint := (kv rest "hint").getD "-"
@@ -348,7 +412,7 @@ def handler : Handler St where
             ++ kvs.map (fun kv => s!"obs typedx {hexStr kv.1} s={showOptStr (decodeString kv.2)} a={showVal (decodeAny kv.2)}"))
     | "resolve" :: rest =>
       let hint := (kv rest "hint").getD "-"
-      let s := { s with tokOnly := kv rest "tokonly" == some "1" }
+      let s := { s with tokOnly := kv rest "tokonly" == some "1", leafAll := kv rest "leaf" == some "1" }
       match resolve s.env s.srcs.reverse with
       | .error es =>
         let names := es.map showErr
@@ -359,6 +423,12 @@ def handler : Handler St where
         let kvs := m.toList.mergeSort (fun a b => !strLt b.1 a.1)
         (s, [s!"obs res ok {showVal (.map m)}", s!"obs strmap {showVal strmap}"]
             ++ kvs.map (fun kv => s!"obs typed {hexStr kv.1} {showTyped kv.2}"))
+    | [w, key, txt, kind] =>
+      if w == "want" || w == "wantn" then
+        match (if key = "-" then some [] else unhexStr key.toList), (if txt = "-" then some [] else unhexStr txt.toList) with
+        | some k, some t => ({ s with wants := s.wants ++ [(k, w == "wantn", t, kind)] }, [])
+        | _, _ => (s, ["obs bad-op"])
+      else (s, ["obs bad-op"])
     | _ => (s, ["obs bad-op"])
   onObs := fun s toks =>
     match toks with
@@ -367,6 +437,10 @@ def handler : Handler St where
       | some v => { s with implRes := some v }
       | none => { s with bad := some "unparsable res" }
     | _ :: "res" :: "err" :: _ => { s with implErr := true }
+    | [_, "retrieved", sc, nm] =>
+      match unhexStr sc.toList, (if nm = "-" then some [] else unhexStr nm.toList) with
+      | some sc, some nm => { s with retrieved := s.retrieved ++ [(sc, nm)] }
+      | _, _ => { s with bad := some "unparsable retrieved" }
     | [_, "strmap", v] =>
       match parseValTok v with
       | some v => { s with implStrmap := some v }
@@ -392,6 +466,12 @@ def handler : Handler St where
         ++ (match checkWants s with
             | some d => [s!"prop typed=FAIL {d}"]
             | none => ["prop typed=ok"])
+        ++ (match checkExact s with
+            | some d => [s!"prop override=FAIL {d}"]
+            | none => ["prop override=ok"])
+        ++ (match checkRetrieved s with
+            | some d => [s!"prop retrieved=FAIL {d}"]
+            | none => ["prop retrieved=ok"])
         ++ (match checkLeafPaths s res with
             | some d => [s!"prop leafpaths=FAIL {d}"]
             | none => ["prop leafpaths=ok"])
@@ -403,10 +483,16 @@ def handler : Handler St where
             | none => ["prop leaks=ok"])
       | _ =>
         -- the implementation reported an error: a well-formed token value must not make resolution fail
-        if s.implErr && !s.toks.isEmpty && s.toks.all (fun kt => tokOK env kt.2 && numRefs kt.2 < env.fuel)
+        (if s.implErr && !s.toks.isEmpty && s.toks.all (fun kt => tokOK env kt.2 && numRefs kt.2 < env.fuel)
            && s.tokOnly then
           ["prop tokens=FAIL sig=C12/expand/error-on-wellformed-tokens"]
-        else ["prop tokens=ok"]
+        else ["prop tokens=ok"])
+        ++ (match checkRetrieved s with
+            | some d => [s!"prop retrieved=FAIL {d}"]
+            | none => ["prop retrieved=ok"])
+        ++ (match checkMergeError s with
+            | some d => [s!"prop mergeerr=FAIL {d}"]
+            | none => ["prop mergeerr=ok"])
 
 end OtelVerif.Drivers.C12
 
